@@ -1,7 +1,7 @@
 """Texts for MANIFEST.json (kept next to props.py so the two stay consistent)."""
 
 ENGINES = [
-    {"name": "e1-vsched", "path": "/verif/engine/vsched", "serves_properties": ["C01", "C06", "C13"],
+    {"name": "e1-vsched", "path": "/verif/engine/vsched", "serves_properties": ["C01", "C06", "C13", "C15"],
      "kind_free_text": "controlled cooperative scheduler + AST instrumenter for lib/go; stateless DFS over choice sequences with deviation bounding and happens-before state-key pruning; explores the real code, no model"},
 ]
 
@@ -22,5 +22,9 @@ CHECKS = {
                 text="Timeouts 1 ms / 5 ms in virtual time against every peer behaviour (silent, late, duplicate, foreign frames); causal oracle: once a caller's own deadline timer fired, the caller never needs a later event to return; TIMED_OUT is never reported before the deadline; no registration is left behind.",
                 note=E1_NOTE + " 'Small scheduling allowance' is interpreted causally, not in wall-clock milliseconds."),
 }
+
+CHECKS["C15"] = dict(engine="e1-vsched", design_ref="DESIGN.md §4 C15", technique="stateless model checking with fault injection (every cut offset x fault kind, reopen answers, user scripts; deviation-bounded DFS)",
+    text="The real fAdapterTransport, monitorRunner and BaseFTransportMonitor over an in-memory stream: every byte offset at which a two-frame stream is cut x {EOF, I/O error, NOT_OPEN}, two failing sessions in a row, every reopen-answer pattern for policies MaxReopenAttempts 0..2, user scripts over Open/Close/IsOpen/Request racing the failure, write failures at every index; all schedules to the bound. Oracles on every end state: no thread parked forever in a lock or send, an open transport has a live reader, every watched session yields exactly one cause then a closed channel (nil only for clean closes), the monitor callback sequence equals a reference runner, lifecycle return codes equal a sequential reference.",
+    note=E1_NOTE + " EOF inside a frame may be reported as clean or unclean (the statement does not settle it).")
 
 NOT_APPLICABLE = {}
